@@ -114,6 +114,27 @@ def check_case(ctx, out, desc, fn, keep_ids, arg):
         if b.id in keep_ids and b.element != o.element:
             out.spec_fail(dict(canon, symptom='exempted_changed'), f'{fn} changed exempted element {b.id!r}', gen_net.pretty(desc), desc=desc, fn=fn, keep_ids=keep_ids, arg=arg)
             return
+    # exempted elements survive, unless their two terminals were merged by contracting *other* shorts
+    if fn in ('remove_short_circuit_elements', 'remove_ideal_voltage_sources', 'passive_network') and keep_ids:
+        from CircuitCalculator.Network import elements as elm
+        parent = {}
+        def find(x):
+            parent.setdefault(x, x)
+            while parent[x] != x:
+                parent[x] = parent[parent[x]]; x = parent[x]
+            return x
+        for b in net.branches:
+            contracted = (elm.is_short_circuit(b.element) or (fn != 'remove_short_circuit_elements' and (elm.is_ideal_voltage_source(b.element))))
+            if contracted and b.id not in keep_ids:
+                parent[find(b.node1)] = find(b.node2)
+        present = {b.id for b in res.branches}
+        for b in net.branches:
+            if b.id in keep_ids and b.id not in present and find(b.node1) != find(b.node2):
+                if fn == 'passive_network' and elm.is_open_circuit(b.element):
+                    continue
+                out.spec_fail(dict(canon, symptom='exempted_removed'), f'{fn} removed exempted element {b.id!r}', gen_net.pretty(desc),
+                              desc=desc, fn=fn, keep_ids=keep_ids, arg=arg)
+                return
     ids_res = [b.id for b in res.branches]
     if len(set(ids_res)) != len(ids_res) or [i for i in orig if i in set(ids_res)] != ids_res:
         out.spec_fail(dict(canon, symptom='order_or_duplicate'), f'{fn} reordered or duplicated branches', gen_net.pretty(desc), desc=desc, fn=fn, keep_ids=keep_ids, arg=arg)
@@ -192,6 +213,23 @@ def check_case(ctx, out, desc, fn, keep_ids, arg):
                           spec=dict(orig=(str(po[o.node1]), str(po[o.node2]), str(io[b.id])), new=(str(pr[b.node1]), str(pr[b.node2]), str(ir[b.id]))),
                           desc=desc, fn=fn, keep_ids=keep_ids, arg=arg)
             return
+    # the library's own solver on the simplified network must give that same solution
+    try:
+        from CircuitCalculator.Network.NodalAnalysis.bias_point_analysis import nodal_analysis_bias_point_solver
+        from props.c01 import impl_report
+        pi, vi, ii, _ = impl_report(res, nodal_analysis_bias_point_solver(res))
+        for b in res.branches:
+            if not (core.close(pi[b.node1], pr[b.node1], scale, 1e-7) and core.close(pi[b.node2], pr[b.node2], scale, 1e-7)
+                    and core.close(ii[b.id], ir[b.id], scale, 1e-7)):
+                out.spec_fail(dict(canon, symptom='solver_on_result_differs'),
+                              f'{fn}: the solver applied to the simplified network does not reproduce the original solution on {b.id!r}',
+                              gen_net.pretty(desc), impl=dict(result=str(net_struct(res)), pot=str(pi), i=str(ii)),
+                              spec=dict(pot=str(pr), i=str(ir)), desc=desc, fn=fn, keep_ids=keep_ids, arg=arg)
+                return
+    except Exception as e:
+        out.spec_fail(dict(canon, symptom='solver_on_result_raises', exc=tag(e)), f'{fn}: the simplified network fails to solve',
+                      gen_net.pretty(desc), desc=desc, fn=fn, keep_ids=keep_ids, arg=arg)
+        return
     out.count('solution_compared')
     out.sample(dict(fn=fn, keep=keep_ids, arg=arg, net=gen_net.pretty(desc)))
 
